@@ -129,6 +129,10 @@ def assigned_names(stmts, writes=None):
             root = t
             while isinstance(root, ast.Attribute): root = root.value
             if isinstance(root, ast.Name): out.add(root.id)
+        elif isinstance(t, ast.Subscript):          # d[k] = v
+            root = t.value
+            while isinstance(root, (ast.Attribute, ast.Subscript)): root = root.value
+            if isinstance(root, ast.Name): out.add(root.id)
     for s in stmts:
         for n in ast.walk(s):
             if isinstance(n, ast.Assign):
@@ -168,10 +172,12 @@ def read_before_write(stmts):
             written |= {t.id for t in s.targets}
     return out
 
+TERMINATORS = [ast.Raise, ast.Return]      # pytr.loops adds ast.Continue / ast.Break for translators that follow them
+
 def terminates(stmts):
-    """every path through the statements ends in raise/return"""
+    """every path through the statements ends in raise/return (or another statement listed in TERMINATORS)"""
     for s in stmts:
-        if isinstance(s, (ast.Raise, ast.Return)):
+        if isinstance(s, tuple(TERMINATORS)):
             return True
         if isinstance(s, ast.If) and s.orelse and terminates(s.body) and terminates(s.orelse):
             return True
@@ -181,6 +187,17 @@ def terminates(stmts):
 
 def contains(stmts, kinds):
     return any(isinstance(n, kinds) for s in stmts for n in ast.walk(s))
+
+def escapes(stmts):
+    """do the statements contain a `return`, or a `break` / `continue` that belongs to an ENCLOSING loop (not to a loop nested in them)?"""
+    def walk(n, in_loop):
+        if isinstance(n, ast.Return): return True
+        if isinstance(n, (ast.Break, ast.Continue)): return not in_loop
+        if isinstance(n, (ast.FunctionDef, ast.Lambda)): return False
+        if isinstance(n, (ast.For, ast.While)):
+            return any(walk(c, True) for c in n.body) or any(walk(c, in_loop) for c in n.orelse)
+        return any(walk(c, in_loop) for c in ast.iter_child_nodes(n))
+    return any(walk(s, False) for s in stmts)
 
 # ----------------------------------------------------------------------------- statements
 
@@ -235,7 +252,7 @@ class Stmts:
         if not stmts:
             return k(env)
         s, rest = stmts[0], stmts[1:]
-        live_rest = read_names(rest) | live | ({self.STATE} if self.writes else set())
+        live_rest = self.live_after(rest, live)
         go = lambda env2: self.block(rest, env2, k, live)
         B = []
         if isinstance(s, ast.Pass):
@@ -279,6 +296,10 @@ class Stmts:
         if isinstance(s, ast.With):
             return self.with_(s, env, go)
         return self.other_stmt(s, rest, env, k, live)
+
+    def live_after(self, rest, live):
+        """names the statements `rest` followed by a continuation reading `live` may read (default: every name read anywhere in rest)"""
+        return read_names(rest) | live | ({self.STATE} if self.writes else set())
 
     def assign_chain(self, s, env, go):
         """a = b = <value without partial operations>"""
@@ -375,7 +396,7 @@ class Stmts:
             return self.wrap(B, mk(self._seq(s.body, e_then, None, live), self._seq(s.orelse, e_else, go, live)))
         if t_else:
             return self.wrap(B, mk(self._seq(s.body, e_then, go, live), self._seq(s.orelse, e_else, None, live)))
-        if contains(s.body + s.orelse, (ast.Return, ast.Break, ast.Continue)):
+        if escapes(s.body + s.orelse):
             if not self.DUPLICATE_ON_RETURN:
                 bad(s, '`return` on some but not all paths of a branch')
             # no join: the rest of the block is translated once per branch
